@@ -139,6 +139,11 @@ def run(chk, prog):
                     args = []
                     for a_ in n.get("args", []):
                         t = A.show(a_).replace(" ", "")
+                        # one spelling for the same object expression: (*p).f() is p->f(), (*p) is *p
+                        t = re.sub(r"\(\*(\w+)\)\.", r"\1->", t)
+                        t = re.sub(r"^\(\*(\w+)\)$", r"*\1", t)
+                        while t.startswith("(") and t.endswith(")") and _balanced_outer(t):
+                            t = t[1:-1]
                         args.append(t)
                     out.append((e["var"], e["method"], tuple(args), n))
         return out
